@@ -253,6 +253,29 @@ def run_case(case, rng):
     case.count("op:normalize")
     if nz is not case.FAIL:
         same(case, nz, {e: p / tot for e, p in ru.items()}, "normalize:not-divided-by-total")
+        # ... and the result is USED: an event of weight 0 has probability 0/total = exactly 0 (it stays impossible under any
+        # later conditioning and is never sampled), and no entry is negative
+        z_bad = [(e, nz.prob(e)) for e, p in ru.items() if p == 0 and nz.prob(e) != 0]
+        n_bad = [(e, nz.prob(e)) for e in ru if nz.prob(e) < 0]
+        case.count("normalised_zero_entries_checked", sum(1 for p in ru.values() if p == 0))
+        case.check(not z_bad and not n_bad, "normalize:zero-weight-event-gets-non-zero-probability", lambda: f"{(z_bad + n_bad)[:3]!r}")
+        # the same with arbitrary float weights (sums of quotients that are not exactly 1) and the zero-weight event listed last
+        for _ in range(3):
+            wf = {("w", i): rng.random() * rng.choice([1.0, 7.0, 1e-3]) for i in range(rng.randint(2, 6))}
+            wf["never"] = 0.0
+            nzf = case.call("normalize(float weights)", DictDistribution(wf).normalize)
+            case.count("normalised_zero_entries_checked")
+            if nzf is not case.FAIL:
+                case.check(nzf.prob("never") == 0 and all(nzf.prob(e) >= 0 for e in wf), "normalize:zero-weight-event-gets-non-zero-probability",
+                           lambda: f"weights {wf!r}: P(never) = {nzf.prob('never')!r}")
+        zero_ev = [e for e, p in ru.items() if p == 0]
+        if zero_ev and len(ru) >= 2:
+            lk = {e: (1.0 if e in zero_ev else 0.0) for e in ru}
+            lk[next(e for e in ru if ru[e] > 0)] = 1e-3
+            cnd = case.call("normalize().condition", lambda: nz.condition(lambda e: lk[e]))
+            if cnd is not case.FAIL:
+                bad_c = [(e, cnd.prob(e)) for e in zero_ev if cnd.prob(e) != 0]
+                case.check(not bad_c, "condition:impossible-event-gets-posterior-mass", lambda: f"after normalize(): {bad_c[:3]!r}")
     # ... also when the total is within 1e-5 of 1 but not 1: normalising still divides by the total
     dn, rn, _ = gen_dist(rng, case, kind="dict", normalised=True)
     fac = 1.0 + rng.choice([4e-6, -8e-6, 1e-7, 9e-6])
